@@ -287,6 +287,7 @@ def ap_create_next_state():
         C("counts_frame", "res is Ok && !is_tip_906 ==> res->Ok_0.coins@.counts == next_state.coins@.counts", "C20"),
         C("fee_total", "res is Ok ==> res->Ok_0.fee_pool.0 + res->Ok_0.tips.0 == next_state.fee_pool.0 + next_state.tips.0 + fsum(transactions@, fee_of())", "C05", "C01"),
         C("errkind", "res is Err ==> !(res->Err_0 is WrongHeader)", "C06", char=True),
+        C("keyed", "res is Ok && txs_keyed(next_state.transactions@) ==> txs_keyed(res->Ok_0.transactions@)", "C02", "C15"),
     ])
 
 def ap_load_relevant_coins():
@@ -305,3 +306,11 @@ def mm_extract_pool_keys():
 
 def mm_transactions_for_pool():
     return dict(ensures=[C("filter", "res@ == transactions@.filter(for_pool(*pool_key))", "C15")])
+
+def mm_process_swaps():
+    d = mm_phase("swaps")
+    d["ensures"] = d["ensures"] + [
+        C("exact", """exists|reqs: Seq<Transaction>| #[trigger] selected(state.transactions@, reqs, swap_pred(state)) && swap_reqs_ok(state.pools@, state.coins@.coins, reqs)
+               && swaps_done(state.pools@, state.coins@.coins, state.height, reqs, ISet::new(|k: PoolKey| mentions(reqs, k)), res.pools@, res.coins@.coins)""", "C15", "C01", "C16",
+          note="every pool named by a genuine swap request is settled exactly once, at one price for both directions; nothing else moves")]
+    return d
